@@ -422,7 +422,7 @@ def run(ctx):
     if hair and not hair_steps:
         ctx.violation("no traced step of the 'hair off an interface' set-ups has a live plain-shooting path stored exactly on its interface: "
                       "the family tests nothing", {"setups": [h[0] for h in hair]}, found_input=False)
-    hcap = 420 if quick else 5000
+    hcap = 320 if quick else 2500
     if len(hcases) > hcap:
         keep = sorted(rng.sample(range(len(hcases)), hcap))
         hcases = [hcases[i] for i in keep]
